@@ -258,6 +258,13 @@ def oracle(case, impl, spec=None):
             return 'get: no result (%s)' % impl[-60:]
         if items(d['get']) != want:
             return 'get(0..len-1) yields %s, forward iteration %s' % (d['get'][:200], ','.join(want)[:200])
+    if e['k'] == 'range' and 'gx' in d and d['gx'] != '-':
+        # Range_Get beyond 0..len-1: keys -1 and -len count from the end, everything outside [-len, len) raises
+        n = len(want)
+        oob = 'E:IndexOutOfBoundsError'
+        wx = [want[-1] if n else oob, want[0] if n else oob, oob, oob, oob, oob]
+        if items(d['gx']) != wx:
+            return 'get at -1,-len,-len-1,len,INT64_MAX,INT64_MIN yields %s, must be %s' % (d['gx'], ','.join(wx))
     if 'tab' not in d:
         return 'transcript incomplete: %s' % impl[-80:]
     return None
@@ -282,7 +289,7 @@ def corr(case, impl, model):
     if impl == model:
         return None
     a, b = sections(impl), sections(model)
-    for k in ('build', 'len', 'leaf', 'fwd', 'bwd', 'get', 'sl', 'tab'):
+    for k in ('build', 'len', 'leaf', 'fwd', 'bwd', 'get', 'gx', 'sl', 'tab'):
         if a.get(k) != b.get(k):
             return 'section %s: implementation %s / model %s' % (k, str(a.get(k))[:200], str(b.get(k))[:200])
     return 'implementation %s / model %s' % (impl[-100:], model[-100:])
@@ -563,6 +570,7 @@ CORPUS = [
     'tup -',                              # D10 Tuple_Iter_Last on the empty tuple read items[-1]
     'range 0,10,4',                       # D11 backward 9,5,1
     'range 0,0,2', 'range 5,0',           # D11 len 1 / len 2^64-5
+    'range 10', 'range 0,10,2',           # D11 Range_Get: [-11] = -1, [INT64_MAX] = -2 (section gx)
     'slice 2 arr 1,2,3,4,5,6',            # D12 ignores stop
     'slice _,_,4 arr 1,2,3,4,5,6',        # D12 walks past the end
     'slice -100,_ arr 1,2,3',             # D12 Slice_Arg clamps -100 to n
@@ -603,9 +611,17 @@ def run(ctx):
     have_model = os.path.exists(os.path.join(vlib.COQ, 'Properties_C11.v'))
     if have_model:
         ctx.coq()
-    drv = ctx.build_driver('Iter') if have_model else None
+    drv, model_broken = None, None
+    if have_model:
+        try:
+            drv = ctx.build_driver('Iter')
+        except vlib.ModelBuildError as e:
+            # e.g. a function text the model was written from changed: no model transcript, but the oracle still runs
+            model_broken = str(e)
+            ctx.notes.append('model does not build against the regenerated Generated.v: ' + model_broken[-600:])
     h = ctx.build_harness('iter_walk.c', whitebox='Table')
-    run_impl = lambda cs: ctx.run_lines(h, cs)[1]
+    henv = dict(os.environ, H_TIMEOUT='4')          # a case takes microseconds; a hang is an observation (TIMEOUT)
+    run_impl = lambda cs: ctx.run_lines(h, cs, env=henv, timeout=3000)[1]
     run_model = (lambda cs: ctx.run_lines(drv, cs, args=['model'])[1]) if drv else None
     run_spec = lambda cs: [spec_line(c) for c in cs]
     d = vlib.Differential(ctx, 'iter', run_impl, run_model, run_spec, oracle, corr, nontrivial, classify=classify)
@@ -680,18 +696,23 @@ def run(ctx):
         cases += [unparse(gen_expr(rng, 3, rng.choice([5, 12, 40]))) for _ in range(100000)]
         ctx.cov['exhaustive'] = {'range_box': 'all range(a,b,s) with arguments in [-20,20] or omitted',
                                  'slice_box': 'all slice(a,b,s) over lengths 0..12,17,25,40 with a,b in [-(n+3),n+3] or omitted, s in [-(n+4),n+4]'}
-    for i in range(0, len(cases), 5000):
-        d.feed(cases[i:i + 5000])
+    for i in range(0, len(cases), 2500):
+        d.feed(cases[i:i + 2500])
+        if len(d.oracle_fail) > 300:
+            ctx.notes.append('stopped after %d cases: more than 300 cases already contradict the specification' % d.ncases)
+            break
     if not quick:
         # AddressSanitizer build of library + harness: any read outside the underlying storage aborts the child
         ctx.build_lib(tag='asan', cflags=['-fsanitize=address', '-fno-omit-frame-pointer'])
         ha = ctx.build_harness('iter_walk.c', tag='asan', whitebox='Table', extra=['-fsanitize=address'])
-        env = dict(os.environ, ASAN_OPTIONS='detect_leaks=0:abort_on_error=1')
+        env = dict(os.environ, ASAN_OPTIONS='detect_leaks=0:abort_on_error=1', H_TIMEOUT='10')
         d_asan = vlib.Differential(ctx, 'iter_asan', lambda cs: ctx.run_lines(ha, cs, env=env, timeout=3000)[1], None,
                                    run_spec, oracle, corr, nontrivial, classify=classify)
         sample = CORPUS + boundary_cases() + rng.sample(cases, min(len(cases), 40000))
         for i in range(0, len(sample), 5000):
             d_asan.feed(sample[i:i + 5000])
+            if len(d_asan.oracle_fail) > 300:
+                break
         ctx.cov['asan_cases'] = len(sample)
         if d_asan.oracle_fail:
             d.oracle_fail += d_asan.oracle_fail
@@ -708,3 +729,7 @@ def run(ctx):
         preshrink()
     preshrink()
     d.report(extra)
+    if model_broken and not any(not nf for _, nf in ctx.violations):
+        ctx.violation('model', {'kind': 'the Coq model no longer builds against coq/Generated.v regenerated from the source',
+                                'detail': model_broken[-3000:], 'theorem_or_file': 'Extract_Iter.v / IterSource.v / Generated.v',
+                                'search': 'oracle (spec vs implementation) clean on %d cases' % d.ncases}, no_failing_input=True)
